@@ -10,6 +10,7 @@ import (
 	"saoverif/internal/core"
 	"saoverif/internal/eff"
 	"saoverif/internal/guard"
+	"saoverif/internal/term"
 )
 
 func init() {
@@ -305,6 +306,9 @@ func checkC12(r *core.Run) {
 	r.Assume(aDeps)
 	r.Assume(aCG)
 	ruleReplacePaired(r)
+	r.Rule("G-elig-2 / T-ignore (shared with C15): the selection never returns a provider on the ignore list, and the timeout handler's ignore list holds the provider of every shard of the order — a stalled shard goes to ANOTHER provider, and the give-up branch is reachable when none is left")
+	ruleElig2(r)
+	checkIgnoreLists(r)
 
 	for _, s := range []struct{ fn, trigger string }{
 		{"sao/keeper.msgServer.Store", "sao/keeper.Keeper.GetSps"},
@@ -533,6 +537,9 @@ func checkC13(r *core.Run) {
 		cl("alias-key-unused", guard.False("*model/keeper.Keeper.GetModel("+aliasKey+")#1")),
 		cl("data-id-unused", guard.False("*model/keeper.Keeper.GetMetadata(#3.DataId)#1")),
 	}, 2)
+
+	r.Rule("T-aliaskey: SetModel / GetModel / RemoveModel sites all build the alias-index key by the same expression of the model's Owner, Alias, GroupId")
+	ruleAliasKeyShape(r, "T-aliaskey")
 
 	// ---- T-listed
 	nCreate := 0
@@ -1035,4 +1042,97 @@ func ruleTakeover(r *core.Run) {
 			}
 		}
 	}
+}
+
+// ruleAliasKeyShape (T-aliaskey): every place that writes, tests or removes an
+// alias-index entry computes its key by the same expression of the model's
+// (Owner, Alias, GroupId); a site that builds the key differently addresses a
+// different entry (the alias of a removed model survives, or another model's
+// alias is removed).
+func ruleAliasKeyShape(r *core.Run, id string) {
+	type site struct {
+		fn, what, shape, pos string
+	}
+	var sites []site
+	// skeleton of the key expression: calls, literals and field names are kept, the record the fields are read
+	// from is abstracted to $ (so the same expression over differently named records compares equal)
+	var skel func(t *term.Term, d int) string
+	skel = func(t *term.Term, d int) string {
+		if t == nil || d > 8 {
+			return "$"
+		}
+		switch t.Op {
+		case "call":
+			var as []string
+			for _, a := range t.Args {
+				as = append(as, skel(a, d+1))
+			}
+			return t.Name + "(" + strings.Join(as, ",") + ")"
+		case "lit", "slice":
+			var as []string
+			for _, a := range t.Args {
+				as = append(as, skel(a, d+1))
+			}
+			return "[" + strings.Join(as, ",") + "]"
+		case "field":
+			return "$." + t.Name
+		case "const":
+			return t.Name
+		case "conv", "un":
+			if len(t.Args) > 0 {
+				return skel(t.Args[0], d+1)
+			}
+		}
+		return "$" // parameters, results of getters, locals: the record itself
+	}
+	norm := func(t *term.Term) string { return skel(t, 0) }
+	for _, f := range r.P.SortedFuncs(r.ConsensusFuncs()) {
+		if r.P.IsGenerated(f) {
+			continue
+		}
+		res := r.Resolver(f)
+		for _, b := range f.Blocks {
+			for _, ins := range b.Instrs {
+				switch x := ins.(type) {
+				case *ssa.Store:
+					if fa, ok := x.Addr.(*ssa.FieldAddr); ok && shortTypeName(fa.X.Type())+"."+fieldNameT(fa.X.Type(), fa.Field) == "model/types.Model.Key" {
+						sites = append(sites, site{r.P.Name(f), "Model.Key :=", norm(res.Of(x.Val)), r.P.Pos(x.Pos())})
+					}
+				case ssa.CallInstruction:
+					name, _ := res.CalleeName(x.Common())
+					if name == "model/keeper.Keeper.RemoveModel" || name == "model/keeper.Keeper.GetModel" {
+						args := x.Common().Args
+						sites = append(sites, site{r.P.Name(f), strings.TrimPrefix(name, "model/keeper.Keeper."), norm(res.Of(args[len(args)-1])), r.P.Pos(x.Pos())})
+					}
+				}
+			}
+		}
+	}
+	shapes := map[string]int{}
+	for _, s := range sites {
+		if s.shape != "$" {
+			shapes[s.shape]++
+		}
+	}
+	// majority shape = reference
+	ref, best := "", 0
+	for sh, c := range shapes {
+		if c > best || (c == best && sh < ref) {
+			ref, best = sh, c
+		}
+	}
+	cnt := map[string]int{}
+	for _, s := range sites {
+		if s.shape == "$" {
+			continue // key handed in from elsewhere (a parameter)
+		}
+		cnt[s.fn+s.what]++
+		key := core.Key(id, s.fn, fmt.Sprintf("%s#%d", s.what, cnt[s.fn+s.what]))
+		if s.shape == ref {
+			r.Discharge(id, key, s.pos, "alias-index key built as "+shorten(ref))
+		} else {
+			r.Violate(id, key, s.pos, fmt.Sprintf("%s addresses the alias index with key %s while the other %d sites use %s: entry written under one key is tested/removed under another (a removed model's alias survives and blocks its data id, or another model's alias is removed)", s.fn, shorten(s.shape), best, shorten(ref)))
+		}
+	}
+	r.Floor("alias_key_sites", len(sites), 4)
 }
